@@ -56,7 +56,7 @@ CHECKS = {
    "Theorems for ALL event lists (the junction comparator is quantified over): a BED12 record is valid iff the exon list is sorted, disjoint, well formed and inside the chromosome; the corrector's output is always such a list; strategy none is the identity; read ends change only in the terminal branches enabled by the strategy; every output splice site is the read's own, the best-matching annotated site within delta, or belongs to an intron of the assigned isoform; process_events terminates. Tied to the real ExonCorrector/BEDPrinter by correspondence and to pipeline BEDs for all strategies.",
    COMMON_NOTE + "IlluminaExonCorrector.correct_exons is modelled too (scoring rules regenerated): valid blocks, ends preserved, site provenance, identity without junctions, for all junction sets and enumeration orders. See docs/C14.md.", "§7 C14, docs/C14.md"),
  "C15": entry(
-   "Theorems for every value in the representable domain (exact encodable-iff characterisations): every primitive and object (events, matches, read assignments, compact records, gene header) round-trips through the byte format, the abridged reader consumes exactly the same bytes as the full reader and returns the projection, streams of gene-info and assignment records round-trip, terminators are unambiguous, penalties are idempotent. Tied byte-for-byte to the real serialisers and both real loaders; the reuse clause (--read_assignments) is exercised by a pipeline pair (search).",
+   "Theorems for every value in the representable domain (exact encodable-iff characterisations): every primitive and object (events, matches, read assignments, compact records, gene header) round-trips through the byte format, the abridged reader consumes exactly the same bytes as the full reader and returns the projection, streams of gene-info and assignment records round-trip, terminators are unambiguous, penalties are idempotent. The reuse clause (--read_assignments) is a theorem over the modelled halves of process_sample (collect_reads incl. both memory modes, multimapper resolution, the _info file with the unaligned count; load_read_info / load_unaligned_reads, the full loader, verdicts, counters, merge, TPM): a restart recomputes exactly what the saving run computed from its files (restart_is_second_half, reuse_reproduces_outputs), also from save folders of the older _info format. Tied byte-for-byte to the real serialisers, both real loaders and the files the real collect_reads writes; printers and model construction of the restart are compared by in-process pipeline pairs (search).",
    COMMON_NOTE + "See docs/C15.md.", "§7 C15, docs/C15.md"),
  "C16": entry(
    "Theorems for every CIGAR over all nine operation kinds (unbounded): the exon blocks equal a loop-free SAM specification (maximal runs between N/S containing an aligned base), are sorted and well formed, read-coordinate blocks are consistent with the query; polyA/polyT exon trimming never empties or disorders the exon list and moves the tail position onto the retained exon, for every exon list and position quadruple. Tied to get_read_blocks, AlignmentInfo and pysam by exhaustive short and random long CIGARs.",
